@@ -53,6 +53,18 @@ def run(op):
             if fn in ("field_name", "constant_name"):
                 return {"ok": getattr(f, fn)(op["name"], "C")}
             return {"ok": getattr(f, fn)(op["name"])}
+        if k == "filters_init":
+            from xsdata.codegen.exceptions import CodegenError
+            cfg = GeneratorConfig()
+            for key, (case, prefix) in op["conv"].items():
+                nc = getattr(cfg.conventions, key)
+                nc.case = NameCase(case)
+                nc.safe_prefix = prefix
+            try:
+                Filters(cfg)
+                return {"ok": True}
+            except CodegenError:
+                return {"ok": False}
         if k == "unique_name":
             return {"ok": ClassUtils.unique_name(op["name"], set(op["reserved"]))}
         if k == "rename_attrs":
